@@ -148,6 +148,22 @@ def rule_r1(ctx) -> RuleResult:
 
 
 def _named_regex(ctx, mod: str, scope: ast.AST):
+    """the regex that splits `name = value`: among the candidates of the scope (other regexes with an `=` live there too, e.g. the
+    heading pattern of frame:preprocess) the one of that shape, else the first whose first group is a character class"""
+    cands = list(_named_regex_candidates(ctx, mod, scope))
+    for p, n in cands:
+        if c04._check_named_regex(p) is None:
+            return p, n
+    for p, n in cands:
+        try:
+            if _name_class(p) is not None and "\\1" not in p:
+                return p, n
+        except Exception:  # noqa: BLE001
+            continue
+    return cands[0] if cands else (None, None)
+
+
+def _named_regex_candidates(ctx, mod: str, scope: ast.AST):
     for n in ast.walk(scope):
         if isinstance(n, ast.Call) and unparse(n.func) in ("re.match", "re.fullmatch") and n.args:
             try:
@@ -155,15 +171,14 @@ def _named_regex(ctx, mod: str, scope: ast.AST):
             except Exception:  # noqa: BLE001
                 continue
             if isinstance(p, str) and "=" in p and p.count("(") >= 2:
-                return p, n
+                yield p, n
         if isinstance(n, ast.Call) and isinstance(n.func, ast.Attribute) and n.func.attr in ("match", "fullmatch") and unparse(n.func.value) != "re":
             try:
                 p = ctx.index.fold(mod, n.func.value)
             except Exception:  # noqa: BLE001
                 continue
             if isinstance(p, str) and "=" in p:
-                return str(p), n
-    return None, None
+                yield str(p), n
 
 
 def _name_class(pat: str):
